@@ -653,7 +653,7 @@ func shutdownReleased(c *Ctx, r *Report, rule string) {
 		found := false
 		allInstrs(fn, func(in ssa.Instruction) {
 			call, ok := in.(*ssa.Call)
-			if ok && calleeNameSSA(&call.Call) == "builtin.close" && anyIn(sliceOf(call.Call.Args[0]), readsField("Server", "shutdown")) {
+			if ok && calleeNameSSA(&call.Call) == "builtin.close" && isDrainChan(call.Call.Args[0], 0) {
 				found = true
 			}
 		})
@@ -676,7 +676,7 @@ func shutdownReleased(c *Ctx, r *Report, rule string) {
 					}
 				}
 			case *ssa.Call:
-				if calleeNameSSA(&t.Call) == "builtin.close" && anyIn(sliceOf(t.Call.Args[0]), readsField("Server", "shutdown")) {
+				if calleeNameSSA(&t.Call) == "builtin.close" && isDrainChan(t.Call.Args[0], 0) {
 					closers = append(closers, t)
 				}
 			}
